@@ -1,6 +1,7 @@
 """C09 - purity of the library: no store reaches a constant or a caller-owned object (R-PURE)."""
 import ast
 from ..model import Func, calls_in, stmt_text
+from ..rules import where
 from ..purity import Purity
 from ..mutate import replace_in_function
 
@@ -37,6 +38,55 @@ def public_entries(pur):
     return ent
 
 
+PROCESS_WIDE = {
+    'warnings.simplefilter': 'the warning filters of the interpreter', 'warnings.filterwarnings': 'the warning filters of the interpreter',
+    'warnings.resetwarnings': 'the warning filters of the interpreter', 'numpy.seterr': 'numpy\'s floating-point error handling', 'np.seterr': 'numpy\'s floating-point error handling',
+    'numpy.set_printoptions': 'numpy\'s print options', 'np.set_printoptions': 'numpy\'s print options', 'numpy.seterrcall': 'numpy\'s error callback', 'np.seterrcall': 'numpy\'s error callback',
+    'locale.setlocale': 'the process locale', 'random.seed': 'the global random generator', 'numpy.random.seed': 'numpy\'s global random generator', 'np.random.seed': 'numpy\'s global random generator',
+    'sys.setrecursionlimit': 'the recursion limit', 'os.chdir': 'the working directory', 'decimal.setcontext': 'the decimal context', 'os.putenv': 'the environment',
+}
+
+
+def process_state_rules(repo, rep):
+    """state that lives OUTSIDE the library's objects: the interpreter's warning filters, numpy's error state, the locale, the working
+    directory - a routine that sets one of them (outside a `with warnings.catch_warnings()` / `numpy.errstate()` block that restores it)
+    changes what later, unrelated calls do (an ISG conversion that normally warns then raises).  And an OPEN FILE kept on an object or at
+    module level: its position is shared by every look-up that goes through it - two threads interleave their seeks and reads."""
+    n = 0
+    for mn in sorted(SCOPE):
+        m = repo.modules.get(mn)
+        if m is None:
+            continue
+        for f in m.all_functions():
+            guarded = set()
+            for w_ in ast.walk(f.node):
+                if isinstance(w_, ast.With) and any('catch_warnings' in stmt_text(it.context_expr) or 'errstate' in stmt_text(it.context_expr) or 'localcontext' in stmt_text(it.context_expr)
+                                                    for it in w_.items):
+                    guarded.update(id(x) for x in ast.walk(w_))
+            for c in ast.walk(f.node):
+                if isinstance(c, ast.Call):
+                    txt = stmt_text(c.func)
+                    if txt in PROCESS_WIDE and id(c) not in guarded:
+                        n += 1
+                        rep.violated('R-PURE', 'R-PURE::%s::%s::process-wide::%s' % (m.relpath, f.qualname, txt), where(f, c), '%s calls `%s`, which sets %s for the whole process and '
+                                     'is not undone: every later call of the library - and of the caller\'s own code - runs under the changed setting (a conversion that '
+                                     'normally issues a UserWarning then raises it)' % (f.qualname, stmt_text(c)[:60], PROCESS_WIDE[txt]),
+                                     expected='with warnings.catch_warnings(): ... (or numpy.errstate)', actual=stmt_text(c)[:80])
+                if isinstance(c, ast.Assign) and isinstance(c.value, ast.Call) and getattr(c.value.func, 'id', '') == 'open' \
+                        and any(isinstance(t, ast.Attribute) for t in c.targets):
+                    n += 1
+                    rep.violated('R-PURE', 'R-PURE::%s::%s::open-file-kept::%s' % (m.relpath, f.qualname, stmt_text(c.targets[0])[:30]), where(f, c), '`%s` keeps an OPEN FILE on the object: '
+                                 'its read position is state shared by every look-up that uses the object - two interleaved calls (threads) seek and read through each other and one of '
+                                 'them returns another node\'s values' % stmt_text(c)[:60], expected='the file opened (and closed) inside the call that reads it', actual=stmt_text(c)[:80])
+        for st in m.tree.body:
+            if isinstance(st, ast.Assign) and isinstance(st.value, ast.Call) and getattr(st.value.func, 'id', '') == 'open':
+                n += 1
+                rep.violated('R-PURE', 'R-PURE::%s::<module>::open-file-kept' % m.relpath, '%s:%d' % (m.relpath, st.lineno), 'a module-level open file: its position is shared by every call',
+                             expected='opened inside the call', actual=stmt_text(st)[:80])
+    if n == 0:
+        rep.holds('R-PURE', 'R-PURE::<library>::process-wide-state', 'geodepy:1', 'no routine of the library sets process-wide interpreter / numpy state or keeps an open file between calls')
+
+
 def run(repo, rep):
     pur = Purity(repo, SCOPE)
     rep.calls_resolved = pur.stats['resolved'] + pur.stats['external']
@@ -51,6 +101,7 @@ def run(repo, rep):
     rep.trust('resolved call graph of sv/resolve.py (names, methods by receiver class or unique method name, operator overloads on guarded parameters)')
     from . import common
     common.mutable_default_rule(repo, rep, list(SCOPE))
+    process_state_rules(repo, rep)
     nfun = 0
     for f in pur.funcs:
         nfun += 1
